@@ -249,7 +249,7 @@ def nodes(v):
     return n, chars
 
 
-def guarded(counter, budget, fn):
+def guarded(counter, budget, fn, room=None):
     """Run fn() instrumented.  Returns dict(status, steps, value) ; status: ok | err:<Class> | BUDGET | ALARM | MEMORY."""
     global ALARM_S
     counter.n = 0
@@ -262,7 +262,7 @@ def guarded(counter, budget, fn):
     old_limit = sys.getrecursionlimit()
     old_handler = signal.signal(signal.SIGALRM, _on_alarm)
     signal.setitimer(signal.ITIMER_REAL, ALARM_S)
-    sys.setrecursionlimit(stack_depth() + RECURSION_ROOM)
+    sys.setrecursionlimit(stack_depth() + (RECURSION_ROOM if room is None else room))
     soft, hard = resource.getrlimit(resource.RLIMIT_AS)
     cap = vm_size() + MEMORY_ROOM
     if hard != resource.RLIM_INFINITY:
@@ -481,11 +481,12 @@ def gen_message(rng, marshal, message):
     raw = m.rawMessage
     if fds is None and rng.random() < 0.4:      # the same message in big-endian (message._marshal always encodes the body little-endian)
         raw = big_endian_message(marshal, message, m)
+    # parseMessage always gets a list (protocol.py passes its own): the right one, one cut short, or []
     if fds:
         r = rng.random()
-        dec = None if r < 0.15 else fds[:rng.randrange(len(fds))] if r < 0.3 else list(fds)
+        dec = [] if r < 0.15 else fds[:rng.randrange(len(fds))] if r < 0.3 else list(fds)
     else:
-        dec = None if rng.random() < 0.03 else []
+        dec = []
     return raw, dec
 
 
@@ -871,6 +872,60 @@ class Runner:
         self.message = message
         self.counter = Counter(marshal)
         self.pending = []       # (stream, case)
+        self.frame_ratio = 1.0  # frames the tree under test uses per frame of the model's estimate (calibrate_frames)
+
+    def calibrate_frames(self):
+        """How many interpreter frames one nesting level costs is a property of the tree under test (a helper function
+        per level is a harmless refactoring), not of C05.  Measured, not assumed: for four nesting families find the
+        smallest depth at which the real decoder answers RecursionError under a limit of 300 frames, ask the model for its
+        frame estimate at that depth; ratio = 300 / estimate (1.0 on the tree the estimate was made for)."""
+        room = 300
+        fams = {
+            'struct': lambda d: {'op': 'u', 'sig': '(' * d + 'y' + ')' * d, 'le': True, 'off': 0, 'data': b'\x05'},
+            'variant': lambda d: {'op': 'u', 'sig': 'v', 'le': True, 'off': 0, 'data': b'\x01v\0' * d + b'\x01y\0\x07'},
+            'array': lambda d: {'op': 'u', 'sig': 'a' * d + 'y', 'le': True, 'off': 0,
+                                'data': struct.pack('<I', 4) * d + b'\x01' * 8},
+            'generator': lambda d: {'op': 'u', 'sig': 'a' * d, 'le': True, 'off': 0, 'data': b''},
+        }
+        found = {}
+        self.counter.install()
+        try:
+            for name, mk in fams.items():
+                def hits(d):
+                    c = mk(d)
+                    data = CountingBytes(c['data'])
+                    self.counter.L = max(255, len(c['sig']))
+                    r = guarded(self.counter, None, lambda: self.marshal.unmarshal(c['sig'], data, 0, True, []), room=room)
+                    return r['status'] == 'err:RecursionError'
+                lo, hi = 1, 400
+                if not hits(hi):
+                    continue            # this family does not recurse (any more): nothing to calibrate
+                while lo < hi:
+                    mid = (lo + hi) // 2
+                    if hits(mid):
+                        hi = mid
+                    else:
+                        lo = mid + 1
+                found[name] = lo
+        finally:
+            self.counter.restore()
+        if not found:
+            return
+        try:
+            out = self.ctx.model([case_line(fams[n](d)) for n, d in found.items()])
+        except Exception:
+            out = None
+        if not out:
+            return
+        ratios = {}
+        for (n, d), line in zip(found.items(), out):
+            m = line.split()
+            if len(m) >= 8 and int(m[4]) > 0:
+                ratios[n] = room / int(m[4])
+                self.ctx.stat('frames %s: RecursionError(limit 300) at depth %d, model estimate %s' % (n, d, m[4]))
+        if ratios:
+            self.frame_ratio = max(1.0, max(ratios.values()))
+            self.ctx.stat('frame-ratio=%.2f' % self.frame_ratio)
 
     def add(self, stream, case):
         self.pending.append((stream, case))
@@ -943,7 +998,7 @@ class Runner:
             # one signature character) and at most 3 frames; anything deeper is recursion the input does not pay for
             siglen = len(c['sig']) if c['op'] == 'u' else 255 + HEADER_LEN
             levels = siglen + (nbytes - (c['off'] if c['op'] == 'u' else 0)) // 2 + 2
-            if 3 * levels + GREY < RECURSION_ROOM:
+            if 3 * self.frame_ratio * levels + GREY < RECURSION_ROOM:
                 ctx.violation(self.key(c, 'recursion-not-justified-by-input'),
                               '%s hit the recursion limit on %d bytes of input (at most %d nesting levels)'
                               % (what, nbytes, levels),
@@ -985,13 +1040,18 @@ class Runner:
             return
         if st == 'err:RecursionError':
             ctx.stat('recursion-error')
-            if mframes < RECURSION_ROOM - GREY:
-                ctx.disagree(stream, cj, mline, obs, detail='RecursionError below the modelled frame estimate')
+            if mframes * self.frame_ratio < RECURSION_ROOM - GREY:
+                ctx.disagree(stream, cj, mline, obs, detail='RecursionError below the modelled frame estimate x %.2f' % self.frame_ratio)
             return
         if st in ('ALARM', 'BUDGET', 'MEMORY'):
             ctx.disagree(stream, cj, mline, obs, detail='implementation did not finish within the proved bound')
             return
         bad = []
+        if c.get('fds', []) is None and mst == 'err:TypeError' and st != mst:
+            # oobFDs=None is only the public default of marshal.unmarshal, never what txdbus itself passes: a tree that
+            # treats None as "no descriptors" is as good as one that raises TypeError on the first UNIX_FD
+            ctx.stat('oobFDs=None tolerated by the tree')
+            return
         if (mst == 'ok') != (st == 'ok'):
             bad.append('outcome')
         elif st == 'ok':
@@ -1134,6 +1194,7 @@ def run(ctx):
     thorough = ctx.tier == 'thorough'
     R = Runner(ctx, marshal, message)
     recursion_limit_check(ctx)
+    R.calibrate_frames()
 
     # ---- corpus first
     for name, d in ctx.corpus():
@@ -1312,5 +1373,6 @@ def replay(ctx, data):
         return recursion_limit_check(ctx)
     if 'scaling' in data['input']:
         return R.scaling([data['input']['n']], True)
+    R.calibrate_frames()
     R.add(data.get('stream', 'replay'), case_from_json(data['input']))
     R.flush()
